@@ -85,5 +85,6 @@ UNIT = {
          "tier": "quick" if n == 4 else "thorough"} for n in (4, 6)] + [
         {"name": "incr_%dcompactors" % n, "entry": "h_incr", "defines": {"NCOMP": n}, "unwind": n + 2, "timeout": 600, "kind": "bounded",
          "bound": "%d compactors of capacity 8" % n, "tier": "quick" if n == 4 else "thorough"} for n in (4, 6)],
+    "replay": {"*": {"template": "quantiles_object.cpp", "vars": {}}},
     "assumptions": ["std::vector<Compactor>::const_iterator is modelled as a pointer into an array of compactors"],
 }
